@@ -47,21 +47,4 @@ CHECK.update(
     design_ref='DESIGN.md section 4, C14',
 )
 
-# build variants: the same enumeration on other builds of the librfn sources (conditional code such as __OPTIMIZE_SIZE__ /
-# __OPTIMIZE__ / __clang__, and compiler-dependent arithmetic, show only there); counted separately by the driver
-def _variants(parts, names):
-    out = []
-    for p in parts:
-        if p['name'] not in names:
-            continue
-        for tag, cc, flags, tiers in (('gcc -Os', 'gcc', ['-Os'], ('quick', 'thorough')), ('clang -O2', 'clang', [], ('thorough',))):
-            q = dict(p)
-            q['name'] = p['name'] + '_' + tag.split()[0] + tag.split()[1].strip('-')
-            q['variant'] = tag
-            q['cc'] = cc
-            q['cflags'] = list(p.get('cflags', [])) + flags
-            q['tiers'] = tiers
-            out.append(q)
-    return out
-CHECK['parts'] = CHECK['parts'] + _variants(CHECK['parts'], ['c14'])
-CHECK['bounds'] = dict((k, v + '; the whole enumeration repeated on a gcc -Os build' + (' and a clang -O2 build' if k == 'thorough' else '') + ' of the librfn sources (counted separately)') for k, v in CHECK['bounds'].items())
+CHECK['variants'] = ['c14']
